@@ -333,6 +333,71 @@ def weights_region(c, S_own, cap):
     return bad_w > 0
 
 
+def named_outputs_at_positions(ctx, c, out, desc, opts):
+    """the named parameters of a result are the entries of its own p_val at the documented positions, their `_var` the matching
+    diagonal entries of p_cov: gamma | (dalpha or alpha) | c, resp. gamma | df | db | alpha | per splice: forward losses, backward
+    losses; talpha_fw[t, s] is the loss of splice s at time t, talpha_fw_full[x, t] the sum of the losses acting at x"""
+    p = np.asarray(out["p_val"].values, dtype=float)
+    v = np.diag(np.asarray(out["p_cov"].values, dtype=float)) if "p_cov" in out else None
+    nt, nx, nta = c.nt, c.nx, len(c.trans_att)
+    x = np.asarray(c.x, dtype=float)
+    want = {}
+    if c.double:
+        base = 1 + 2 * nt + nx
+        want.update(gamma=[0], df=list(range(1, 1 + nt)), db=list(range(1 + nt, 1 + 2 * nt)), alpha=list(range(1 + 2 * nt, base)))
+        taf = [[base + s * 2 * nt + t for s in range(nta)] for t in range(nt)]
+        tab = [[base + s * 2 * nt + nt + t for s in range(nta)] for t in range(nt)]
+    else:
+        if opts.get("fix_alpha") is not None:
+            base = 1 + nx + nt
+            want.update(gamma=[0], alpha=list(range(1, 1 + nx)), c=list(range(1 + nx, base)))
+        else:
+            base = 2 + nt
+            want.update(gamma=[0], dalpha=[1], c=list(range(2, base)))
+        taf = [[base + s * nt + t for s in range(nta)] for t in range(nt)]
+        tab = None
+    problems = []
+
+    def cmp(name, idx, arr):
+        if name not in out:
+            return
+        da = out[name]
+        if set(da.dims) == {"time", "trans_att"}:
+            da = da.transpose("time", "trans_att")
+        got = np.asarray(da.values, dtype=float)
+        exp = np.asarray(arr[np.asarray(idx, dtype=int)] if np.size(idx) else np.zeros(np.shape(idx)), dtype=float).reshape(np.shape(idx))
+        if got.ndim <= 1 and got.size == exp.size:
+            got = got.reshape(exp.shape)
+        if got.shape != exp.shape or not np.allclose(got, exp, rtol=1e-12, atol=1e-300, equal_nan=True):
+            problems.append(f"{name} is not p_{'val' if arr is p else 'cov diagonal'} at its documented positions")
+
+    for name, idx in want.items():
+        cmp(name, idx, p)
+        if v is not None:
+            cmp(name + "_var", idx, v)
+    if nta:
+        cmp("talpha_fw", taf, p)
+        if v is not None:
+            cmp("talpha_fw_var", taf, v)
+        if tab is not None:
+            cmp("talpha_bw", tab, p)
+            if v is not None:
+                cmp("talpha_bw_var", tab, v)
+        # integrated losses: forward acts on x >= splice, backward on x < splice
+        for name, table, mask in (("talpha_fw_full", taf, lambda s: x >= s), ("talpha_bw_full", tab, lambda s: x < s)):
+            if table is None or name not in out:
+                continue
+            exp = np.zeros((nx, nt))
+            for si, s in enumerate(c.trans_att):
+                exp[mask(s)] += np.array([p[table[t][si]] for t in range(nt)])[None, :]
+            got = np.asarray(out[name].transpose("x", "time").values, dtype=float)
+            if got.shape != exp.shape or not np.allclose(got, exp, rtol=1e-12, atol=1e-15):
+                problems.append(f"{name} is not the sum of the splice losses of p_val acting at each location")
+    ctx.count("named outputs vs p_val positions")
+    if problems:
+        ctx.fail("; ".join(problems[:3]), desc)
+
+
 def check_design_blocks(ctx, c, desc):
     """the COO blocks the design-matrix builders store, entry for entry, vs `Model/Design.lean` (driver op `design`): exercises the
     numpy semantics of arange / tile / repeat written into `Model/PyPrim` on the sizes of this case (the translator ties the
@@ -414,6 +479,7 @@ def check_wls_case(ctx, c, opts, known_weights=None, compare_full=True):
         return out
     if not opts:
         check_design_blocks(ctx, c, desc)
+    named_outputs_at_positions(ctx, c, out, desc, opts)
     cap = caps[-1]
     p_code, v_code, cov_code = cap["out"][0], cap["out"][1], cap["out"][2]
     # ---------------- correspondence: system, solution, layout
